@@ -8,7 +8,8 @@ RULE = ("Histories as for C01 with batch mode weighted 3:1 and 15-30% market ord
         "uncrossed (on the independent model driven by the actual fills and on pams' getters), per-order fill totals equal "
         "the reference greedy walk. Non-trivial = history with a round on a book crossed by >=2 levels or holding market "
         "orders on both sides.")
-ASSUMPTIONS = ["thorough tier adds a coverage-guided atheris campaign over byte-decoded histories (16 processes, half from an empty corpus); its saved decoded case, not the campaign, is the reproducible unit",
+ASSUMPTIONS = ["the part 'nonpositive' uses limit prices <= 0, which pams accepts with a warning; all other parts use positive prices",
+               "thorough tier adds a coverage-guided atheris campaign over byte-decoded histories (16 processes, half from an empty corpus); its saved decoded case, not the campaign, is the reproducible unit",
                "when both best orders are market orders (outside C03's premise) the engine's decision not to run a round is accepted"]
 
 
@@ -29,6 +30,13 @@ PARTS = {"machine": {"check": make_check({"C03"}, _nt), "strategy": _strategy,
                      "budget": {"quick": 3000, "thorough": 100000}},
          "deep": {"check": make_check({"C03"}, _nt), "strategy": _deep_strategy, "budget": {"quick": 2000, "thorough": 60000}}}
 
+def _nonpositive_strategy(tier):
+    # books whose limit prices include zero and negative values (accepted by pams with a warning): rounds must still terminate
+    # without raising and leave the book uncrossed
+    return market_cases(max_ops=40 if tier == "quick" else 150, market_frac=3, nonpositive=True, batch_bias=True, match_weight=4)
+
+
+PARTS["nonpositive"] = {"check": make_check({"C03"}, _nt), "strategy": _nonpositive_strategy, "budget": {"quick": 1500, "thorough": 40000}}
 PARTS["fuzz"] = fuzz_part("C03", {"C03"}, _nt)
 
 
